@@ -20,12 +20,12 @@ def v1Loc (cg : CGOut) (env : Env) (sp S : Nat) (n : String) : Option Nat :=
     else none
   | .error _ => none
 
-def v1K (cg : CGOut) (env : Env) (xc : X.Ctx) (consts : List (Int × String)) (nlocals jExit : Nat) : PCtx :=
+def v1K (cg : CGOut) (env : Env) (xc : X.Ctx) (consts : List (Int × String)) (nlocals : Nat) (hi : Nat → Word) : PCtx :=
   { env := env, out := cg, ctx := mainCtx cg, xc := xc, ρ := fun _ => none,
     sp := (spValue cg.globalsOffset).toNat - (frameOf cg 0).size,
     loc := v1Loc cg env ((spValue cg.globalsOffset).toNat - (frameOf cg 0).size) (frameOf cg 0).size,
     consts := consts, nlocals := nlocals,
-    link := BitVec.ofNat 32 (env.addr jExit) }
+    hi := hi, gnames := [], dep := 1 }
 
 theorem find?_mem : ∀ (t : SymTab) (k : SymKey) (s : Symbol), t.find? k = some s → (k, s) ∈ t := by
   intro t
@@ -186,6 +186,13 @@ def constDataOk (env : Env) (vl : Int × String) : Bool :=
   | none => false
 
 def dummyXc : X.Ctx := { genv := [], impure := [], limit := 0 }
+def noHi : Nat → Word := fun _ => 0
+
+/-- The name has a location inside the frame or below the stack. -/
+def locBelow (K : PCtx) (n : String) : Bool :=
+  match K.loc n with
+  | some a => decide (a < K.sp + K.S)
+  | none => false
 
 /-- The environment the stage-2/3 triples are run in: the LOWERED list, every directive at the
     address its image has in the layout of the OPTIMISED list (`fakeEnv`, Lemmas/XcmpPeep.lean). -/
@@ -201,7 +208,7 @@ def v1CheckWith (P : X.Program) (m : X.Proc) (st : Stages) (img : Image) (code :
   let spvI := spValue cg.globalsOffset
   let body := lowerCode cg code
   let env := v1Env st img
-  let K := v1K cg env dummyXc gs2.constMap m.locals.length (iStub cg.data + 3)
+  let K := v1K cg env dummyXc gs2.constMap m.locals.length noHi
   decide (st.optimised = peephole ds) &&
   decide (ds = v1Program spvI cg.data S (frameOf cg 0).exitLabel body) &&
   parsedOkB st.optimised && decide (st.optimised.length < 2 ^ 26) && decide (img.bytes.length ≤ 4 * memWords) &&
@@ -212,7 +219,7 @@ def v1CheckWith (P : X.Program) (m : X.Proc) (st : Stages) (img : Image) (code :
   decide (img.bytes.length / 4 ≤ spvI.toNat) &&
   decide (env.addr 1 = 4) && decide (env.addr (iStub cg.data + 3) < 2 ^ 32) &&
   gs2.constMap.all (constDataOk env) &&
-  (m.locals.map X.Decl.name ++ P.globals.map X.Decl.name).all (fun n => (K.loc n).isSome)
+  (m.locals.map X.Decl.name ++ P.globals.map X.Decl.name).all (locBelow K)
 
 /-- The generator state at the start of the body of `main` in a V1 program: one label per global
     and the exit label are taken; the locals occupy the first frame offsets. -/
@@ -228,8 +235,12 @@ def v1Check (P : X.Program) (m : X.Proc) (st : Stages) (img : Image) : Bool :=
 /-! ### The whole-program theorem -/
 
 theorem wfsCheck_xc (cg : CGOut) (env : Env) (xc xc' : X.Ctx) (consts : List (Int × String))
-    (nl j exitJ : Nat) (names : List String) :
-    wfsCheck (v1K cg env xc consts nl j) exitJ names = wfsCheck (v1K cg env xc' consts nl j) exitJ names := rfl
+    (nl : Nat) (hi hi' : Nat → Word) (exitJ : Nat) (names : List String) :
+    wfsCheck (v1K cg env xc consts nl hi) exitJ names = wfsCheck (v1K cg env xc' consts nl hi') exitJ names := rfl
+
+theorem locBelow_xc (cg : CGOut) (env : Env) (xc xc' : X.Ctx) (consts : List (Int × String))
+    (nl : Nat) (hi hi' : Nat → Word) (n : String) :
+    locBelow (v1K cg env xc consts nl hi) n = locBelow (v1K cg env xc' consts nl hi') n := rfl
 
 open V1Pos in
 /-- The `IAm` run of a V1 program, in any environment whose boot memory holds the DATA words. -/
@@ -243,7 +254,7 @@ theorem v1_core (P : X.Program) (m : X.Proc) (inp : X.Input) (fuel : Nat) (β : 
     (hnl : m.locals.length ≤ gs1.offset)
     (hshape : env.ds = v1Program (spValue cg.globalsOffset) cg.data (frameOf cg 0).size (frameOf cg 0).exitLabel (lowerCode cg code))
     (hsz : gs2.size ≤ (frameOf cg 0).size)
-    (hwfs : wfsCheck (v1K cg env dummyXc gs2.constMap m.locals.length (iStub cg.data + 3))
+    (hwfs : wfsCheck (v1K cg env dummyXc gs2.constMap m.locals.length noHi)
               (iEpi cg.data (frameOf cg 0).size (lowerCode cg code)) (cg.tbl.map fun e => e.1.2) = true)
     (h0 : 0 ≤ spValue cg.globalsOffset) (hS : (frameOf cg 0).size ≤ (spValue cg.globalsOffset).toNat)
     (hlt : (spValue cg.globalsOffset).toNat + 2 < memWords) (h2 : 2 ≤ (spValue cg.globalsOffset).toNat)
@@ -252,37 +263,16 @@ theorem v1_core (P : X.Program) (m : X.Proc) (inp : X.Input) (fuel : Nat) (β : 
     (ha1 : env.addr 1 = 4) (hlink : env.addr (iStub cg.data + 3) < 2 ^ 32)
     (hcd : ∀ vl ∈ gs2.constMap, constDataOk env vl = true)
     (hlocs : ∀ n ∈ m.locals.map X.Decl.name ++ P.globals.map X.Decl.name,
-      ((v1K cg env dummyXc gs2.constMap m.locals.length (iStub cg.data + 3)).loc n).isSome = true) :
+      locBelow (v1K cg env dummyXc gs2.constMap m.locals.length noHi) n = true) :
     ∃ c io code, Steps env (cfg 0 0 0 mem0) (Isa.IOSt.init inp.stdin inp.files) c io ∧ Exit env c io code ∧
       code = β.exit ∧ io.log.reverse = β.events ∧ inp.stdin.length - io.stdin.length = β.stdinConsumed := by
   obtain ⟨f, hfuel, hexec⟩ := run_v1 P m inp fuel β hv hm hrun
-  -- the procedure context
-  have hx := wfsCheck_xc cg env (v1Ctx P m fuel) dummyXc gs2.constMap m.locals.length (iStub cg.data + 3)
-    (iEpi cg.data (frameOf cg 0).size (lowerCode cg code)) (cg.tbl.map fun e => e.1.2)
-  have hy := Eq.trans hx hwfs
-  have hnames : ∀ n a, (v1K cg env (v1Ctx P m fuel) gs2.constMap m.locals.length (iStub cg.data + 3)).loc n = some a →
-      n ∈ cg.tbl.map (fun e => e.1.2) := by
-    intro n a h
-    exact v1Loc_names cg _ _ _ n a h
-  have wf0 := wfsCheck_sound _ _ _ hnames hy
-  obtain ⟨K, hK⟩ : ∃ K : PCtx, K = v1K cg env (v1Ctx P m fuel) gs2.constMap m.locals.length (iStub cg.data + 3) :=
-    ⟨_, rfl⟩
-  have wf : K.WFS (iEpi cg.data (frameOf cg 0).size (lowerCode cg code)) := by rw [hK]; exact wf0
-  have hKS : K.S = (frameOf cg 0).size := by rw [hK]; rfl
-  have hKsp : K.sp = (spValue cg.globalsOffset).toNat - (frameOf cg 0).size := by rw [hK]; rfl
-  have hKenv : K.env = env := by rw [hK]; rfl
-  have hKxc : K.xc = v1Ctx P m fuel := by rw [hK]; rfl
-  have hKρ : ∀ n, K.ρ n = none := by intro n; rw [hK]; rfl
-  have hKlink : K.link = BitVec.ofNat 32 (env.addr (iStub cg.data + 3)) := by rw [hK]; rfl
-  have hKlow : K.low code = lowerCode cg code := by rw [hK]; rfl
-  have hKnl : K.nlocals = m.locals.length := by rw [hK]; rfl
-  have hKconsts : K.consts = gs2.constMap := by rw [hK]; rfl
-  have hgen' : genStmt K.ctx (optStmt (annotS K.ρ m.body)) gs1 = .ok (code, gs2) := by rw [hK]; exact hgen
-  have hlocs' : ∀ n ∈ m.locals.map X.Decl.name ++ P.globals.map X.Decl.name, (K.loc n).isSome = true := by
-    rw [hK]; exact hlocs
+  have hnd : (labelNames env.ds).Nodup := by
+    unfold wfsCheck at hwfs
+    simp only [Bool.and_eq_true, decide_eq_true_eq] at hwfs
+    exact hwfs.1.1.1.1.1.1.1.1.1
   have hpos : V1Pos env.ds (spValue cg.globalsOffset) cg.data (frameOf cg 0).size
       (frameOf cg 0).exitLabel (lowerCode cg code) := ⟨hshape⟩
-  have hnd : (labelNames env.ds).Nodup := by have := wf.nodup; rw [hKenv] at this; exact this
   -- the boot memory
   have hd1 : env.ds[1]? = some (.data (spValue cg.globalsOffset)) := hpos.at_head.get 1 _ rfl
   obtain ⟨_, hm1, hc1⟩ := hdata 1 _ hd1
@@ -295,9 +285,36 @@ theorem v1_core (P : X.Program) (m : X.Proc) (inp : X.Input) (fuel : Nat) (β : 
   obtain ⟨a', memP, hstart, hP1, hPlink, hPrest⟩ :=
     v1_startup env _ _ _ _ _ hpos hnd mem0 (spValue cg.globalsOffset).toNat
       (Isa.IOSt.init inp.stdin inp.files) hm1' (by omega) hcs h2 hc1' hS
+  -- the procedure context
+  have hx := wfsCheck_xc cg env (v1Ctx P m fuel) dummyXc gs2.constMap m.locals.length memP.read noHi
+    (iEpi cg.data (frameOf cg 0).size (lowerCode cg code)) (cg.tbl.map fun e => e.1.2)
+  have hy := Eq.trans hx hwfs
+  have hnames : ∀ n a, (v1K cg env (v1Ctx P m fuel) gs2.constMap m.locals.length memP.read).loc n = some a →
+      n ∈ cg.tbl.map (fun e => e.1.2) := by
+    intro n a h
+    exact v1Loc_names cg _ _ _ n a h
+  have wf0 := wfsCheck_sound _ _ _ hnames hy
+  obtain ⟨K, hK⟩ : ∃ K : PCtx, K = v1K cg env (v1Ctx P m fuel) gs2.constMap m.locals.length memP.read :=
+    ⟨_, rfl⟩
+  have wf : K.WFS (iEpi cg.data (frameOf cg 0).size (lowerCode cg code)) := by rw [hK]; exact wf0
+  have hKS : K.S = (frameOf cg 0).size := by rw [hK]; rfl
+  have hKsp : K.sp = (spValue cg.globalsOffset).toNat - (frameOf cg 0).size := by rw [hK]; rfl
+  have hKenv : K.env = env := by rw [hK]; rfl
+  have hKxc : K.xc = v1Ctx P m fuel := by rw [hK]; rfl
+  have hKρ : ∀ n, K.ρ n = none := by intro n; rw [hK]; rfl
+  have hKhi : K.hi = memP.read := by rw [hK]; rfl
+  have hKlow : K.low code = lowerCode cg code := by rw [hK]; rfl
+  have hKnl : K.nlocals = m.locals.length := by rw [hK]; rfl
+  have hKconsts : K.consts = gs2.constMap := by rw [hK]; rfl
+  have hgen' : genStmt K.ctx (optStmt (annotS K.ρ m.body)) gs1 = .ok (code, gs2) := by rw [hK]; exact hgen
+  have hlocs' : ∀ n ∈ m.locals.map X.Decl.name ++ P.globals.map X.Decl.name, locBelow K n = true := by
+    intro n hn
+    rw [hK, locBelow_xc cg env _ dummyXc _ _ _ noHi]
+    exact hlocs n hn
   -- the initial representation
   have rep : Rep K (v1Start P m inp) memP := by
-    refine ⟨by rw [hKsp]; exact hP1, fun n w h => by rw [hKρ] at h; simp at h, ?_, ?_, ?_, ?_⟩
+    refine ⟨by rw [hKsp]; exact hP1, fun n w h => by rw [hKρ] at h; simp at h, ?_, ?_, ?_, ?_,
+      fun n hn => by rw [hK] at hn; simp [v1K] at hn, by rw [hK]; rfl⟩
     · intro n w _ h
       rw [hKxc] at h
       exact absurd h (readName_start P m inp fuel n w)
@@ -322,9 +339,14 @@ theorem v1_core (P : X.Program) (m : X.Proc) (inp : X.Input) (fuel : Nat) (β : 
       exact hval
     · intro n hvar
       rw [hKxc] at hvar
-      exact Option.isSome_iff_exists.mp (hlocs' n (isVar_start P m inp fuel n hvar))
-    · rw [hKS, hKsp, show (spValue cg.globalsOffset).toNat - (frameOf cg 0).size + (frameOf cg 0).size
-        = (spValue cg.globalsOffset).toNat from by omega, hPlink, hKlink]
+      have := hlocs' n (isVar_start P m inp fuel n hvar)
+      unfold locBelow at this
+      split at this
+      · rename_i a ha
+        exact ⟨a, ha, by simpa using this⟩
+      · simp at this
+    · intro a _
+      rw [hKhi]
   -- the body
   have hbody : okS m.body = true := by
     unfold isV1 at hv
@@ -348,8 +370,9 @@ theorem v1_core (P : X.Program) (m : X.Proc) (inp : X.Input) (fuel : Nat) (β : 
     obtain ⟨c, hfin, hexit⟩ := v1_finish env _ _ _ _ _ hpos a2 b2 mem2 K.sp
       (spValue cg.globalsOffset).toNat s.io (by rw [hKsp]; omega) rep2.sp
       (by have := rep2.link
+          unfold PCtx.link at this
           rw [hKS, hKsp, show (spValue cg.globalsOffset).toNat - (frameOf cg 0).size + (frameOf cg 0).size
-            = (spValue cg.globalsOffset).toNat from by omega, hKlink] at this
+            = (spValue cg.globalsOffset).toNat from by omega, hKhi, hPlink] at this
           exact this)
       hlt hcs2 h2 hc1' hlink
     exact ⟨c, s.io, 0, (hstart.trans hsteps).trans hfin, hexit, hβ1.symm, hβ2.symm, hβ3.symm⟩
